@@ -1635,3 +1635,35 @@ pub fn manifest_trivial_move_roundtrip(level: usize, num: u64, size: u64) -> Opt
     core::mem::forget(bytes);
     r
 }
+
+/// Drive a real `LRUCache<u64, u64>` of the given capacity: `ops` = ("insert", key, value) | ("get", key, _) | ("remove", key, _).
+/// Returns (per operation: the value read through the handle that insert / get returned, `None` for a miss or a remove;
+/// `len()` at the end; the values read at the end through every handle handed out, in order).
+pub fn lru_cache_scenario(capacity: usize, ops: &[(String, u64, u64)]) -> (Vec<Option<u64>>, usize, Vec<u64>) {
+    use crate::utils::cache::{Cache, LRUCache};
+    let cache: LRUCache<u64, u64> = LRUCache::new(capacity);
+    let mut seen = vec![];
+    let mut handles = vec![];
+    for (op, k, v) in ops {
+        match op.as_str() {
+            "insert" => {
+                let h = cache.insert(*k, *v);
+                seen.push(Some(*h.get_value()));
+                handles.push(h);
+            }
+            "get" => match cache.get(k) {
+                Some(h) => {
+                    seen.push(Some(*h.get_value()));
+                    handles.push(h);
+                }
+                None => seen.push(None),
+            },
+            _ => {
+                cache.remove(k);
+                seen.push(None);
+            }
+        }
+    }
+    let at_end = handles.iter().map(|h| *h.get_value()).collect();
+    (seen, cache.len(), at_end)
+}
